@@ -207,6 +207,23 @@ impl<'t, F: Mv> MvSession<'t, F> {
         self.out
             .emit(json!({"ev":"mgc","ret":ret,"ninner":ninner,"nterm":nterm}));
     }
+    /// set_var_order with live functions, then re-project every live handle
+    pub fn reorder_and_check(&mut self, req: &[u32], f: impl FnOnce(&F::ManagerRef, &[u32]) -> Result<(), String>) {
+        let ok = f(&self.mref, req).is_ok();
+        let n = self.n;
+        let l2v: Vec<u32> = self.mref.with_manager_shared(|m| (0..n).map(|l| m.level_to_var(l)).collect());
+        self.out.emit(json!({"ev":"reorder","l2v":l2v,"ok":ok,"req":req}));
+        if !ok {
+            self.dead = true;
+            return;
+        }
+        for a in self.live() {
+            let f = self.get(a).clone();
+            let (e, g, _) = f.graph();
+            let vt = Value::Array(catch(|| f.values(n)).unwrap_or_else(|p| vec![json!({"panic": p})]));
+            self.out.emit(json!({"ev":"mcheck","a":a,"e":e,"g":g,"vt":vt,"nc":f.node_count()}));
+        }
+    }
     /// drop every handle and collect: the manager must be empty again
     pub fn finish(&mut self) {
         for x in self.live() {
@@ -414,6 +431,12 @@ pub fn tdd(args: &Args) {
                         s.drop_h(a);
                         s.gc();
                     }
+                }
+                5 if rng.chance(1, 3) => {
+                    let p: Vec<u32> = if rng.chance(1, 2) { vec![1, 0] } else { vec![0, 1] };
+                    s.reorder_and_check(&p, |mref, p| {
+                        mref.with_manager_exclusive(|m| catch(|| oxidd_reorder::set_var_order(m, p)))
+                    });
                 }
                 _ => {
                     let op = TBIN[rng.below(8)];
@@ -646,6 +669,12 @@ pub fn mtbdd(args: &Args) {
             if rng.below(10) == 0 && live.len() > 8 {
                 s.drop_h(a);
                 s.gc();
+            } else if rng.below(12) == 0 {
+                let mut p = rng.perm(n as usize);
+                p.truncate(1 + rng.below(n as usize));
+                s.reorder_and_check(&p, |mref, p| {
+                    mref.with_manager_exclusive(|m| catch(|| oxidd_reorder::set_var_order(m, p)))
+                });
             } else {
                 mt_arith(&mut s, AOPS[rng.below(6)], a, b);
             }
